@@ -219,3 +219,110 @@ func returnedClosures(fn *ssa.Function) []*ssa.Function {
 	}
 	return out
 }
+
+// copyCompleteness checks that fn, which builds a new value of struct type
+// owner ("pkg.Type") from its receiver, sets every field from the receiver's
+// same-named field (directly, through an atomic load, or through make+copy).
+// Nested anonymous/named struct fields are descended into when they are stored
+// field by field. Returns the list of fields that are not copied.
+func copyCompleteness(fn *ssa.Function, st *types.Struct, owner string) (missing []string) {
+	recv := fn.Params[0]
+	// rootOf follows an address/selection chain down to its base object
+	rootOf := func(v ssa.Value) ssa.Value {
+		for i := 0; i < 16; i++ {
+			switch x := v.(type) {
+			case *ssa.FieldAddr:
+				v = x.X
+			case *ssa.Field:
+				v = x.X
+			case *ssa.IndexAddr:
+				v = x.X
+			case *ssa.Index:
+				v = x.X
+			case *ssa.UnOp:
+				if x.Op != token.MUL {
+					return v
+				}
+				v = x.X
+			case *ssa.Slice:
+				v = x.X
+			default:
+				return v
+			}
+		}
+		return v
+	}
+	// passesField reports whether the selection chain of v goes through a field of that name
+	passesField := func(v ssa.Value, name string) bool {
+		for i := 0; i < 16; i++ {
+			switch x := v.(type) {
+			case *ssa.FieldAddr:
+				if ssax.FieldOf(x).Name() == name {
+					return true
+				}
+				v = x.X
+			case *ssa.Field:
+				if ssax.FieldOf(x).Name() == name {
+					return true
+				}
+				v = x.X
+			case *ssa.IndexAddr:
+				v = x.X
+			case *ssa.UnOp:
+				v = x.X
+			case *ssa.Slice:
+				v = x.X
+			default:
+				return false
+			}
+		}
+		return false
+	}
+	followAtomic := func(call *ssa.Call) bool {
+		f := call.Call.StaticCallee()
+		if f == nil {
+			return false
+		}
+		if f.Pkg != nil && f.Pkg.Pkg.Path() == "sync/atomic" {
+			return true
+		}
+		// nested copy helpers of the same module (x.copy())
+		return core.IsModuleFunc(f) && (f.Name() == "copy" || f.Name() == "Copy")
+	}
+	fromRecvField := func(v ssa.Value, field string) bool {
+		return ssax.AnyIn(ssax.BackwardOpt(v, followAtomic), func(x ssa.Value) bool {
+			switch x.(type) {
+			case *ssa.FieldAddr, *ssa.Field:
+				return passesField(x, field) && rootOf(x) == ssa.Value(recv)
+			}
+			return false
+		})
+	}
+	for i := 0; i < st.NumFields(); i++ {
+		name := st.Field(i).Name()
+		ok := false
+		ssax.Instrs(fn, false, func(_ *ssa.Function, in ssa.Instruction) {
+			switch x := in.(type) {
+			case *ssa.Store:
+				if !passesField(x.Addr, name) || rootOf(x.Addr) == ssa.Value(recv) {
+					return
+				}
+				if fromRecvField(x.Val, name) {
+					ok = true
+				}
+			case *ssa.Call:
+				if b, isB := x.Call.Value.(*ssa.Builtin); isB && b.Name() == "copy" {
+					dst, src := x.Call.Args[0], x.Call.Args[1]
+					dstOK := passesField(dst, name) && rootOf(dst) != ssa.Value(recv)
+					if dstOK && fromRecvField(src, name) {
+						ok = true
+					}
+				}
+			}
+		})
+		if !ok {
+			missing = append(missing, name)
+		}
+	}
+	return missing
+}
